@@ -31,16 +31,18 @@ pub struct RecW {
     pub sh: Shared,
     /// Scripted statistics (passed, skipped, failed, retried, parsing, hook).
     pub stats: [usize; 6],
+    /// Scripted verdict; `None` = the trait's default (derived from the counters).
+    pub verdict: Option<bool>,
 }
 
 impl RecW {
     pub fn new() -> (Self, Shared) {
         let sh = Shared::default();
-        (RecW { sh: sh.clone(), stats: [0; 6] }, sh)
+        (RecW { sh: sh.clone(), stats: [0; 6], verdict: None }, sh)
     }
     pub fn with_stats(stats: [usize; 6]) -> (Self, Shared) {
         let sh = Shared::default();
-        (RecW { sh: sh.clone(), stats }, sh)
+        (RecW { sh: sh.clone(), stats, verdict: None }, sh)
     }
 }
 
@@ -78,6 +80,10 @@ impl writer::Stats<TW> for RecW {
     }
     fn hook_errors(&self) -> usize {
         self.stats[5]
+    }
+    fn execution_has_failed(&self) -> bool {
+        // a writer may have its own notion of failure (as `Summarize` has for retried attempts)
+        self.verdict.unwrap_or(self.stats[2] > 0 || self.stats[4] > 0 || self.stats[5] > 0)
     }
 }
 
